@@ -304,14 +304,24 @@ def one_run(seed_rng_state, nsteps, policy, extra):
 
         def post(self, *a):
             return False
+    problems = []
     try:
         gen_ops.run_history(eng, nsteps, [Tog()])
     finally:
-        for l in listeners:
-            l.deregister_all_listeners()
-        if toggled and state["on"]:
-            toggled.deregister_all_listeners()
-    return [(e[1], e[2], e[3]) for e in eng.log], canon_state(eng.u), sum(l.n for l in listeners)
+        for l in listeners + ([toggled] if toggled and state["on"] else []):
+            try:
+                l.deregister_all_listeners()
+            except Exception as ex:  # noqa: BLE001
+                problems.append("deregister_all_listeners() of a registered listener raised %r at %s" % (ex, probes.innermost_frame(ex)))
+                # leave no listener behind for the next case
+                from spydrnet.global_state import global_callback as gcb
+                for name in dir(gcb):
+                    c_ = getattr(gcb, name)
+                    if name.startswith("_container_") and isinstance(c_, list):
+                        c_[:] = [m_ for m_ in c_ if getattr(m_, "__self__", None) is not l]
+    if len(set(l.n for l in listeners)) > 1:
+        problems.append("listeners registered for the whole run were told different numbers of changes: %s" % [l.n for l in listeners])
+    return [(e[1], e[2], e[3]) for e in eng.log], canon_state(eng.u), sum(l.n for l in listeners), problems
 
 
 def run_case(ctx, i, rng):
@@ -325,6 +335,10 @@ def run_case(ctx, i, rng):
             a2 = one_run(st, n, policy, 0)
             b = one_run(st, n, policy, 1 + i % 3)
             ctx.count("differential_runs")
+            if b[3]:
+                ctx.violation("listener-bookkeeping:%s" % ("deregistration-raised" if "raised" in b[3][0] else "unequal-notification-counts"),
+                              "%s (with %d extra passive listeners and one listener toggled on and off)" % (b[3][0], 1 + i % 3))
+                return
             if a1[:2] != a2[:2]:
                 ctx.count("differential_nondeterministic_skipped")
             elif b[0] != a1[0]:
